@@ -1,0 +1,32 @@
+//go:build verif
+
+/*
+   Copyright The containerd Authors.
+
+   Licensed under the Apache License, Version 2.0 (the "License");
+   you may not use this file except in compliance with the License.
+   You may obtain a copy of the License at
+
+       http://www.apache.org/licenses/LICENSE-2.0
+
+   Unless required by applicable law or agreed to in writing, software
+   distributed under the License is distributed on an "AS IS" BASIS,
+   WITHOUT WARRANTIES OR CONDITIONS OF ANY KIND, either express or implied.
+   See the License for the specific language governing permissions and
+   limitations under the License.
+*/
+
+package fusemanager
+
+import "github.com/containerd/stargz-snapshotter/snapshot"
+
+// VerifWrapFileSystem, when set (verification harness only, build tag "verif"), may replace the
+// filesystem that Init has just constructed (or its construction error) with a recording one.
+var VerifWrapFileSystem func(fs snapshot.FileSystem, err error) (snapshot.FileSystem, error)
+
+func verifWrapFileSystem(fs snapshot.FileSystem, err error) (snapshot.FileSystem, error) {
+	if h := VerifWrapFileSystem; h != nil {
+		return h(fs, err)
+	}
+	return fs, err
+}
